@@ -100,12 +100,24 @@ func (b *Bus) Partition(from, to string, on bool) {
 }
 
 // Reserialise passes an envelope through the run's serializer.
-func (b *Bus) Reserialise(e *wire.Envelope) (*wire.Envelope, error) {
+func (b *Bus) Reserialise(e *wire.Envelope) (out *wire.Envelope, err error) {
 	var buf bytes.Buffer
-	if err := b.Ser.Encode(&buf, e); err != nil {
+	// Encoding is the sender's business: an envelope its serializer cannot
+	// encode (error or panic) simply cannot be sent. Decoding is the
+	// receiver's: a panic there is a crash of the receiving process and is
+	// deliberately not recovered.
+	func() {
+		defer func() {
+			if r := recover(); r != nil {
+				err = fmt.Errorf("encode panicked: %v", r)
+			}
+		}()
+		err = b.Ser.Encode(&buf, e)
+	}()
+	if err != nil {
 		return nil, fmt.Errorf("encode: %w", err)
 	}
-	out, err := b.Ser.Decode(&buf)
+	out, err = b.Ser.Decode(&buf)
 	if err != nil {
 		return nil, fmt.Errorf("decode: %w", err)
 	}
@@ -114,6 +126,9 @@ func (b *Bus) Reserialise(e *wire.Envelope) (*wire.Envelope, error) {
 
 // Publish implements wire.Publisher.
 func (b *Bus) Publish(ctx context.Context, e *wire.Envelope) error {
+	if b.S.Overrun() {
+		return nil
+	}
 	from, to := b.nameOf(e.Sender), b.nameOf(e.Recipient)
 	desc := b.S.DescribeMsg(e.Msg)
 	key := "bus:" + from + ">" + to + ":" + desc
